@@ -203,7 +203,7 @@ class C03(Profile):
         return meaning(plain) == meaning(entry.rel)
 
     def gen(self, rng, tier):
-        return multi_gen(rng, tier, weights={**MULTI_W, "process": 1.5}, flags_p=0.6, udf_p=0.04)
+        return multi_gen(rng, tier, weights={**MULTI_W, "process": 1.5, "join": 2}, flags_p=0.6, udf_p=0.04)
 
     def dn_keys(self, run):
         from .world import shape
@@ -386,6 +386,7 @@ class C09(Profile):
     claims = {k: "C09" for k in ("mutated", "unhashable", "rebuild_not_equal", "rebuild_hash_differs",
                                  "compile_not_repeatable", "execute_not_repeatable")}
     track_fingerprints = True
+    eval_new = True
     fault_sites = ("leaf_iter", "hook_before", "hook_after", "db_before", "db_after")
     fault_fraction = 0.3
     dn_rule = ("long mixed histories of factory calls, executions, cursors, process(), diagnostics, rejected and faulted "
@@ -412,7 +413,7 @@ class C10(Profile):
     eval_stats = ('evaluations', 'process_ops', 'payload_nodes_checked')
     level = "fault_enumeration"
     claims = {k: "C10" for k in ("payload_overwritten", "attach_not_rejected", "attach_wrong_exception", "attach_rejected",
-                                 "attach_lost", "reevaluated", "hook_recall", "rows_mismatch", "payload_not_cached")}
+                                 "attach_lost", "reevaluated", "hook_recall", "rows_mismatch", "payload_not_cached", "mutated")}
     track_payloads = True
     fault_sites = PROC_SITES
     enumerate_faults = True
